@@ -50,11 +50,22 @@ def fee_worlds(R, env, prog, sites, RULE):
         rem, n = world_edges(h, tp, want)
         w = h.with_removed(rem).settle()
         R.worlds += 1
-        R.ob(RULE, "ReceiveRewards:treasury=%s:tests" % name, n >= 1, "no test of treasury_address found (the accounting and the payment both depend on it; one merged test or two are fine), found %d" % n, fn=hk)
+        # (value-level spellings — `treasury.map_or(fee, |_| zero)`, `treasury.map(|t| BankMsg ..)` — have no branch to count:
+        # the world is not vacuous if the handler mentions the treasury address at all)
+        mentions = any(tp(s_) for c_, p_ in __import__("engine.analysis", fromlist=["inline_walk"]).inline_walk(prog, h, 2) for bi_, t_, a_ in call_sites(c_, lambda nm: True) for x_ in a_ for s_ in subterms(x_))
+        R.ob(RULE, "ReceiveRewards:treasury=%s:tests" % name, n >= 1 or mentions, "no test of treasury_address found (the accounting and the payment both depend on it; one merged test or two are fine), found %d" % n, fn=hk)
         fee_writes = []
+        from engine.analysis import resolve_terms as _rt2w
         for op, alts in shared.state_writes(prog, w, env):
             for base, d in alts or []:
                 v = d.get(("total_fees",))
+                if v is not None and v[0] == "mut" and len(v) > 3 and v[3]:
+                    # `total_fees += treasury.map_or(fee, |_| zero)`: the operand in this world
+                    opnd = _rt2w(prog, v[3][0], 2, None, w.assumptions)
+                    if const_int(opnd) == 0:
+                        v = None if want else v  # += 0 changes nothing
+                    elif opnd is not v[3][0]:
+                        v = (v[0], v[1], v[2], (opnd,) + tuple(v[3][1:])) + tuple(v[4:])
                 if v is not None:
                     fee_writes.append((op, v))
                 elif not want:
@@ -75,7 +86,8 @@ def fee_worlds(R, env, prog, sites, RULE):
                 R.ob(RULE, "ReceiveRewards:treasury=Some:payee", to is not None and to[0] == "payload" and tp(to[1]), "fee is paid to %s, expected the configured treasury" % fmt(to or ("none",))[:120], loc=loc, fn=hk)
                 R.ob(RULE, "ReceiveRewards:treasury=Some:amount", amt is not None and is_fee(prog, amt), "fee payment carries %s, expected fee = rate.multiply_ratio(reward, 100000)" % fmt(amt or ("none",))[:160], loc=loc, fn=hk)
                 R.ob(RULE, "ReceiveRewards:treasury=Some:denom", ibc_denom(prog, den), "fee payment denom %s" % fmt(den or ("none",))[:80], loc=loc, fn=hk)
-                ok_resp = all(shared.term_in_all_paths(term, lambda s_, t=t: norm(s_) == norm(t)) for _, term in success_terms(w))
+                # (the message itself, or — `treasury.map(|t| BankMsg::Send {..})` handed to add_messages — the closure that builds it)
+                ok_resp = all(shared.term_in_all_paths(term, lambda s_, t=t, c=c: norm(s_) == norm(t) or (c.body.kind == "closure" and s_[0] == "closure" and s_[1] == c.body.key)) for _, term in success_terms(w))
                 R.ob(RULE, "ReceiveRewards:treasury=Some:in-response", ok_resp, "the fee payment does not reach the Response on every success path of this world", loc=loc, fn=hk)
 
 
